@@ -231,6 +231,53 @@ def run(ctx):
         if i % 501 == 0:
             ctx.sample({"configs": pairs[pi], "history": h})
         run_history(pairs[pi], h, seed=1 + (i % 4), tag="ex")
+    # ------------------------------------------------------------------------- equal arguments, built differently
+    # "a second writer constructed identically": the tags are handed over as a SET; two sets with the same members are
+    # the same argument, in whatever order the members were inserted (sets of the same members may iterate differently)
+    import itertools as _it
+    from commonroad.common.file_writer import CommonRoadFileWriter
+    from commonroad.common.util import FileFormat
+    from commonroad.scenario.scenario import Tag
+    twins = []
+    for a_, b_, c_ in _it.combinations(sorted(Tag, key=lambda t: t.name), 3):
+        for perm in ((c_, b_, a_), (b_, a_, c_), (b_, c_, a_)):
+            s1, s2 = set(), set()
+            for t_ in (a_, b_, c_):
+                s1.add(t_)
+            for t_ in perm:
+                s2.add(t_)
+            if list(s1) != list(s2):
+                twins.append((s1, s2))
+                break
+        if len(twins) >= 6:
+            break
+    ctx.notes["tag-sets-iterating-differently-found"] = len(twins)
+    for i, rng in ctx.cases("equal-tag-sets", len(twins) * 2):
+        s1, s2 = twins[i // 2]
+        fmt = ("xml", "pb")[i % 2]
+        sc, pps = scenario(1 + i % 4)
+        outs = []
+        ctx.evaluation()
+        ctx.feature("equal-tag-sets-with-different-iteration-order")
+        ctx.fingerprint(["tags", i, sorted(t.name for t in s1), fmt])
+        try:
+            for k_, tg in enumerate((s1, s2)):
+                w = CommonRoadFileWriter(sc, pps, tags=tg, decimal_precision=4,
+                                         file_format=FileFormat.XML if fmt == "xml" else FileFormat.PROTOBUF)
+                path = os.path.join(tmp, "c15_tags_%d_%d_%d%s" % (os.getpid(), i, k_, ".xml" if fmt == "xml" else ".pb"))
+                c15_ref.write(w, "full", path)
+                with open(path, "rb") as f:
+                    outs.append(c15_ref.normalise(f.read(), fmt))
+                os.remove(path)
+        except Exception as e:  # noqa
+            ctx.violation("C15/equal-tag-sets/raises-%s/%s" % (type(e).__name__, fmt), repr(e)[:200], {"tags": sorted(
+                t.name for t in s1)})
+            continue
+        if outs[0] != outs[1]:
+            ctx.violation("C15/content-depends-on-insertion-order-of-the-tag-set/" + fmt,
+                          "two writers given equal tag sets %s (inserted in different orders) wrote different content" %
+                          sorted(t.name for t in s1), {"tags": sorted(t.name for t in s1), "order_1": [t.name for t in s1],
+                                                       "order_2": [t.name for t in s2]})
     n = ctx.pick(60, 3000)
     for i, rng in ctx.cases("random", n):
         cfgs = {k: (rng.choice(["xml", "xml", "pb"]), rng.randint(1, 12)) for k in "ABC"}
